@@ -1,4 +1,223 @@
-import NriModel.Basic
-/-! Property theorems for C06 — placeholder until the model is written. -/
+import NriModel.Lemmas.DispatchMask
+import NriModel.Lemmas.DispatchHistory
+import NriModel.Lemmas.DispatchFine
+/-!
+Property C06 — subscribed plugins get each event once, in index order, in one common order.
+
+Model: `NriModel/Dispatch.lean` (plugin list, `sortPlugins`, subscription test, request loop,
+interleaving semantics of the adaptation mutex). Only the property theorems and, after each,
+an `example` showing its hypotheses can be met; lemmas are in `NriModel/Lemmas/Dispatch*.lean`.
+-/
 namespace Nri.Props.C06
+open Nri Nri.Events Nri.Dispatch
+
+variable {ρ σ ο ε : Type}
+
+/-- For indices that pass `CheckPluginIndex` (exactly two digits) the string comparison
+    `sortPlugins` uses IS the comparison of the numbers they denote; different strings denote
+    different numbers; all lie in 0…99. -/
+theorem idx_order (a b : Str) (ha : twoDigits a = true) (hb : twoDigits b = true) :
+    (strLt a b = true ↔ idxNat a < idxNat b) ∧ (idxNat a = idxNat b → a = b) ∧ idxNat a < 100 :=
+  ⟨strLt_iff_idxNat_lt a b ha hb, idxNat_inj a b ha hb, idxNat_lt_100 a ha⟩
+
+example : twoDigits (str "07") = true ∧ twoDigits (str "10") = true ∧ strLt (str "07") (str "10") = true ∧
+    idxNat (str "07") = 7 ∧ twoDigits (str "7") = false ∧ twoDigits (str "1a") = false := by decide
+
+/-- `IsSet` on the effective mask, for ALL 2³² masks and the thirteen events: a plugin is
+    subscribed to event `e` iff it answered Configure with 0 ("everything") or with bit `e-1`
+    set. -/
+theorem C06_mask (m : BitVec 32) (e : Nat) (h1 : 1 ≤ e) (h13 : e ≤ 13) :
+    isSet (effective m) e = true ↔ (m = 0#32 ∨ m.getLsbD (e - 1) = true) := by
+  have hlt : e - 1 < 32 := by omega
+  rw [isSet_eq_getLsbD (effective m) e hlt]
+  by_cases hm : m = 0#32
+  · subst hm
+    simp only [effective, if_true, true_or, iff_true]
+    exact valid_getLsbD (e - 1) (by omega)
+  · simp [effective, hm]
+
+example : isSet (effective 0#32) 13 = true ∧ isSet (effective 0x8#32) 4 = true ∧
+    isSet (effective 0x8#32) 5 = false := by decide
+
+/-- Every plugin list reachable in the interleaving model — by activations in ANY arrangement
+    `sort.Slice` may choose, disconnects, and requests by any callers in any order — is sorted
+    by index. -/
+theorem sorted_invariant (Mof : Nat → EventNo → Merger ρ σ ο ε) (T : Nat) (h : List (Ev ρ))
+    (s : LState ρ ο ε) (hr : run? Mof T LState.init h = some s) : Sorted s.plugins :=
+  (WF.run Mof T h _ _ (WF.init Mof T) hr).sorted
+
+/-- `activate` (the arrangement the driver starts from) is one of the admitted arrangements. -/
+theorem activate_admitted (ps : List Plugin) (p : Plugin) (h : Sorted ps) : IsActivation ps p (activate ps p) :=
+  activate_isActivation ps p h
+
+section examples
+def pA : Plugin := ⟨0, str "10", str "a", 0x1fff#32, false⟩
+def pB : Plugin := ⟨1, str "05", str "b", 0x8#32, false⟩
+def pC : Plugin := ⟨2, str "10", str "c", 0x1fff#32, false⟩
+def okCall : Call Nat := ⟨.ok 1, true, 1⟩
+def unitM : Merger Nat Nat Nat Unit := ⟨0, fun a _ r => .ok (a + r), id⟩
+
+/-- two plugins with the same index may stand either way round -/
+example : isActivation [pB, pA] pC [pB, pA, pC] = true ∧ isActivation [pB, pA] pC [pB, pC, pA] = true ∧
+    isActivation [pB, pA] pC [pA, pB, pC] = false := by decide
+example : ∃ s : LState Nat Nat Unit,
+    run? (fun _ _ => unitM) 5 LState.init
+      [.activate pA [pA], .activate pB [pB, pA], .inv 7 1 4, .run 7 [okCall, okCall], .ret 7] = some s := ⟨_, rfl⟩
+end examples
+
+/-- **Exactly once, in index order, subscribed only.** For one request on plugin list `pcs`
+    (each plugin paired with what its call yields):
+    * the plugins called are a PREFIX of the subscribed plugins in list order — so nobody
+      unsubscribed is called and no list position is used twice;
+    * if the request is not aborted, it is ALL of them;
+    * if it is aborted, the last plugin called is the one whose answer aborted it, and unless
+      result collection refused a response the calls are the subscribed plugins up to and
+      including the first that answered with its own error;
+    * on an index-sorted list the calls are in index order, and with distinct plugin identities
+      no plugin is called twice;
+    * absent faults (every plugin open, every request reaching its handler) the handlers that
+      ran are exactly the calls made. -/
+theorem C06_exactly_once (M : Merger ρ σ ο ε) (T : Nat) (ev : EventNo) (pcs : List (Plugin × Call ρ)) :
+    let out := request M T ev pcs
+    out.2.1.attempted <+: subscribers ev pcs ∧
+    ((∃ o, out.1 = .ok o) → out.2.1.attempted = subscribers ev pcs) ∧
+    (∀ e, out.1 = .error e → out.2.1.attempted.getLast? = some e.culprit) ∧
+    ((∀ p e, out.1 ≠ .error (.merge p e)) → out.2.1.attempted = upToVeto T ev pcs) ∧
+    (Sorted (pcs.map (·.1)) → Sorted out.2.1.attempted) ∧
+    ((pcs.map (·.1.id)).Nodup → (out.2.1.attempted.map (·.id)).Nodup) ∧
+    ((∀ pc ∈ pcs, handlerRan pc.1 pc.2 = true) → out.2.1.handled = out.2.1.attempted) := by
+  have hpre := relay_attempted_prefix M T ev M.init pcs
+  have hsub : (relayLoop M T ev M.init pcs).2.attempted.Sublist (pcs.map (·.1)) :=
+    hpre.sublist.trans List.filter_sublist
+  refine ⟨hpre, ?_, ?_, ?_, ?_, ?_, ?_⟩
+  · rintro ⟨o, ho⟩
+    simp only [request] at ho
+    cases hr : (relayLoop M T ev M.init pcs).1 with
+    | error e => rw [hr] at ho; cases ho
+    | ok a => exact relay_ok_attempted M T ev M.init pcs a hr
+  · intro e he
+    simp only [request] at he
+    cases hr : (relayLoop M T ev M.init pcs).1 with
+    | ok a => rw [hr] at he; cases he
+    | error e' =>
+      rw [hr] at he
+      simp only [Except.map, Except.error.injEq] at he
+      subst he
+      exact relay_error_last M T ev M.init pcs e' hr
+  · intro hne
+    apply relay_attempted_upToVeto
+    intro p e hr
+    apply hne p e
+    simp [request, hr, Except.map]
+  · intro hs
+    exact hs.sublist hsub
+  · intro hn
+    have : (pcs.map (·.1.id)) = (pcs.map (·.1)).map (·.id) := by simp [List.map_map, Function.comp_def]
+    rw [this] at hn
+    exact (hsub.map _).nodup hn
+  · intro hr
+    exact relay_handled_eq M T ev M.init pcs hr
+
+example :
+    (request unitM 5 4 [(pB, okCall), (pA, okCall), (pC, ⟨.handlerErr [], true, 1⟩)]).2.1.attempted = [pB, pA, pC] ∧
+    (request unitM 5 5 [(pB, okCall), (pA, okCall), (pC, okCall)]).2.1.attempted = [pA, pC] ∧
+    (request unitM 5 4 [(pB, ⟨.handlerErr [], true, 1⟩), (pA, okCall), (pC, okCall)]).2.1.attempted = [pB] := by
+  decide
+
+/-- **One common order.** In every history the lock model accepts there is ONE sequence `σ` of
+    relays — each of them `request` run on the caller's own request, on an index-sorted list —
+    such that what EVERY plugin itself records (`handlerLog`: the requests its handler is invoked
+    with, as the history unfolds) is `σ` filtered by "this plugin's handler ran". -/
+theorem C06_common_order (Mof : Nat → EventNo → Merger ρ σ ο ε) (T : Nat) (h : List (Ev ρ))
+    (s : LState ρ ο ε) (hr : run? Mof T LState.init h = some s) :
+    ∃ σ' : List (Done ρ ο ε),
+      (∀ d ∈ σ', LogOk Mof T d) ∧
+      ∀ id, handlerLog Mof T id LState.init h = (σ'.filter (ranAt id)).map (·.rid) := by
+  obtain ⟨new, hlog, hproj⟩ := handlerLog_projection Mof T h _ _ hr
+  have hw := WF.run Mof T h _ _ (WF.init Mof T) hr
+  refine ⟨new.reverse, ?_, hproj⟩
+  intro d hd
+  apply hw.log d
+  rw [hlog]
+  simp only [LState.init, List.append_nil]
+  exact List.mem_reverse.1 hd
+
+example : handlerLog (fun _ _ => unitM) 5 0 (LState.init : LState Nat Nat Unit)
+      [.activate pA [pA], .activate pB [pB, pA], .inv 7 1 4, .inv 8 2 5, .run 8 [okCall, okCall],
+       .run 7 [okCall, okCall], .ret 7, .ret 8] = [2, 1] ∧
+    handlerLog (fun _ _ => unitM) 5 1 (LState.init : LState Nat Nat Unit)
+      [.activate pA [pA], .activate pB [pB, pA], .inv 7 1 4, .inv 8 2 5, .run 8 [okCall, okCall],
+       .run 7 [okCall, okCall], .ret 7, .ret 8] = [1] := by decide
+
+/-- **… consistent with what callers can observe.** Cut any accepted history in two. A relay made
+    before the cut (in particular: of any request that had already RETURNED to its caller, see
+    `returned_has_relay`) stands in the common order before every relay made after the cut (in
+    particular: of any request invoked after it). So the common order never contradicts the
+    order in which callers saw their requests complete and start. -/
+theorem C06_real_time_order (Mof : Nat → EventNo → Merger ρ σ ο ε) (T : Nat) (h1 h2 : List (Ev ρ))
+    (s : LState ρ ο ε) (hr : run? Mof T LState.init (h1 ++ h2) = some s) :
+    ∃ s1, run? Mof T LState.init h1 = some s1 ∧
+      (∀ x ∈ s1.rets, ∃ d ∈ s1.log, d.tid = x.1 ∧ d.rid = x.2.1) ∧
+      ∀ d ∈ s1.log, ∀ d' ∈ s.log, d' ∉ s1.log → [d, d'].Sublist (order s) := by
+  rw [run_append] at hr
+  cases h : run? Mof T LState.init h1 with
+  | none => rw [h] at hr; simp at hr
+  | some s1 =>
+    rw [h] at hr
+    simp only [Option.bind_some] at hr
+    have hw := WF.run Mof T h1 _ _ (WF.init Mof T) h
+    refine ⟨s1, rfl, ?_, ?_⟩
+    · intro x hx
+      obtain ⟨d, hd, h1', h2', _⟩ := hw.rets x hx
+      exact ⟨d, hd, h1', h2'⟩
+    · intro d hd d' hd' hnew
+      exact order_respects_cut Mof T h2 s1 s hr d d' hd hd' hnew
+
+example : ∃ s : LState Nat Nat Unit,
+    run? (fun _ _ => unitM) 5 LState.init
+      ([.activate pA [pA], .inv 7 1 4, .run 7 [okCall], .ret 7] ++ [.inv 8 2 4, .run 8 [okCall], .ret 8]) = some s ∧
+    (order s).map (·.rid) = [1, 2] := ⟨_, rfl, by decide⟩
+
+/-- **Own result.** Whatever a caller is handed back was computed by `request` from ITS request
+    (`rid`, `ev` select the collector), the plugin list at the moment it held the mutex, and the
+    calls made for it — nothing of any other caller's request enters. -/
+theorem C06_own_result (Mof : Nat → EventNo → Merger ρ σ ο ε) (T : Nat) (h : List (Ev ρ))
+    (s : LState ρ ο ε) (hr : run? Mof T LState.init h = some s) :
+    ∀ x ∈ s.rets, ∃ d ∈ s.log, d.tid = x.1 ∧ d.rid = x.2.1 ∧
+      x.2.2 = (request (Mof d.rid d.ev) T d.ev (d.before.zip d.calls)).1 := by
+  have hw := WF.run Mof T h _ _ (WF.init Mof T) hr
+  intro x hx
+  obtain ⟨d, hd, h1, h2, h3⟩ := hw.rets x hx
+  exact ⟨d, hd, h1, h2, h3 ▸ (hw.log d hd).2.2.1⟩
+
+example : ∃ s : LState Nat Nat Unit,
+    run? (fun rid _ => ⟨rid, fun a _ r => .ok (a + r), id⟩) 5 LState.init
+      [.activate pA [pA], .inv 7 100 4, .inv 8 200 4, .run 8 [okCall], .run 7 [okCall], .ret 7, .ret 8] = some s ∧
+    s.rets.map (fun x => (x.1, x.2.1)) = [(8, 200), (7, 100)] := ⟨_, rfl, by decide⟩
+
+/-! ### what the mutex buys (fine-grained view: single plugin calls, explicit lock) -/
+
+/-- With `Lock()`/`Unlock()` around the loop, in every reachable state at most ONE caller is
+    inside its loop, and it is the holder of the mutex: no plugin call of another request can
+    fall between two calls of a request — a relay is atomic, which is what the interleaving model
+    (`step?`, event `run`) takes as its step. -/
+theorem mutex_excludes (ps : List Plugin) (h : List FEv) (s : FState)
+    (hr : frun? true (FState.start ps) h = some s) :
+    s.walkers.length ≤ 1 ∧ (∀ w ∈ s.walkers, s.lock = some w.tid) ∧ (s.lock = none → s.walkers = []) := by
+  obtain ⟨h1, h2, h3⟩ := frun_excl h _ _ (start_excl ps) hr
+  refine ⟨h3, ?_, h1⟩
+  intro w hw
+  cases hl : s.lock with
+  | none => rw [h1 hl] at hw; cases hw
+  | some t => rw [h2 t hl w hw]
+
+/-- Without them the same two requests can reach two plugins in opposite orders (plugin 0 sees
+    request 1 then 2, plugin 1 sees 2 then 1: no common order) — a schedule the guarded model
+    refuses. This is the history shape the concurrent stream of the check looks for. -/
+theorem no_mutex_interleaves :
+    ∃ h s, frun? false (FState.start [pB, pA]) h = some s ∧
+      s.seenBy pB.id = [1, 2] ∧ s.seenBy pA.id = [2, 1] ∧
+      frun? true (FState.start [pB, pA]) h = none :=
+  ⟨[.enter 7 1, .call 7, .enter 8 2, .call 8, .call 8, .leave 8, .call 7, .leave 7], _, rfl, by decide, by decide, by decide⟩
+
 end Nri.Props.C06
